@@ -18,7 +18,9 @@ import (
 	"github.com/apache/skywalking-banyandb/pkg/bus"
 	"github.com/apache/skywalking-banyandb/pkg/query/executor"
 	"github.com/apache/skywalking-banyandb/pkg/query/logical"
+	lmeasure "github.com/apache/skywalking-banyandb/pkg/query/logical/measure"
 	lstream "github.com/apache/skywalking-banyandb/pkg/query/logical/stream"
+	measurev1 "github.com/apache/skywalking-banyandb/api/proto/banyandb/measure/v1"
 )
 
 type dqFuture struct{ m bus.Message }
@@ -101,6 +103,8 @@ func handleDqs(f []string) string {
 		req.OrderBy = &modelv1.QueryOrder{Sort: modelv1.Sort_SORT_ASC}
 	case "desc":
 		req.OrderBy = &modelv1.QueryOrder{Sort: modelv1.Sort_SORT_DESC}
+	case "unspec":
+		req.OrderBy = &modelv1.QueryOrder{} // order_by present, sort left unspecified: nodes answer ascending
 	}
 	plan, err := lstream.DistributedAnalyze(req, []logical.Schema{s})
 	if err != nil {
@@ -113,6 +117,114 @@ func handleDqs(f []string) string {
 	var ids []string
 	for _, e := range got {
 		ids = append(ids, strings.TrimPrefix(e.ElementId, "e"))
+	}
+	return fmt.Sprintf("pushed=%s got=%s", strings.Join(cl.pushed, ","), ifEmpty(len(ids) == 0, "-")+strings.Join(ids, ","))
+}
+
+// measureCluster plays the data nodes of a measure query (no aggregation): ascending time unless the request
+// says DESC (logical.ParseOrderBy returns nil for an unspecified sort), offset, limit (0 = server default 100).
+type measureCluster struct {
+	nodes  [][]*measurev1.InternalDataPoint
+	pushed []string
+}
+
+func (c *measureCluster) Broadcast(_ time.Duration, _ bus.Topic, message bus.Message) ([]bus.Future, error) {
+	var req *measurev1.QueryRequest
+	switch v := message.Data().(type) {
+	case *measurev1.InternalQueryRequest:
+		req = v.GetRequest()
+	case *measurev1.QueryRequest:
+		req = v
+	default:
+		return nil, fmt.Errorf("unexpected query payload %T", v)
+	}
+	c.pushed = append(c.pushed, fmt.Sprintf("%d+%d", req.GetLimit(), req.GetOffset()))
+	limit := int(req.GetLimit())
+	if limit == 0 {
+		limit = 100
+	}
+	desc := req.GetOrderBy() != nil && req.GetOrderBy().GetSort() == modelv1.Sort_SORT_DESC
+	var ff []bus.Future
+	for i, rows := range c.nodes {
+		own := append([]*measurev1.InternalDataPoint{}, rows...)
+		sort.SliceStable(own, func(a, b int) bool {
+			ta, tb := own[a].DataPoint.Timestamp.AsTime(), own[b].DataPoint.Timestamp.AsTime()
+			if desc {
+				return ta.After(tb)
+			}
+			return ta.Before(tb)
+		})
+		off := int(req.GetOffset())
+		if off > len(own) {
+			off = len(own)
+		}
+		own = own[off:]
+		if limit < len(own) {
+			own = own[:limit]
+		}
+		ff = append(ff, dqFuture{m: bus.NewMessage(bus.MessageID(i), &measurev1.InternalQueryResponse{DataPoints: own})})
+	}
+	return ff, nil
+}
+
+func (c *measureCluster) TimeRange() *modelv1.TimeRange {
+	return &modelv1.TimeRange{Begin: timestamppb.New(time.Unix(0, 0)), End: timestamppb.New(time.Unix(100000, 0))}
+}
+func (c *measureCluster) NodeSelectors() map[string][]string { return nil }
+
+// dqm.<order> nodes rows limit offset seed      order = none | unspec | asc | desc ; limit 0 = unset
+// Real measure DistributedAnalyze + Execute against faithful data nodes. Data point i (0-based) has timestamp
+// i+1 s and series id = its node + 1 (one series per shard).
+func handleDqm(f []string) string {
+	if len(f) != 6 {
+		return "bad-op"
+	}
+	_, order, _ := strings.Cut(f[0], ".")
+	nodes, rows, limit, offset, seed := atoi(f[1]), atoi(f[2]), atoi(f[3]), atoi(f[4]), atoi(f[5])
+	md := &databasev1.Measure{
+		Metadata: &commonv1.Metadata{Name: "m", Group: "g"},
+		Entity:   &databasev1.Entity{TagNames: []string{"id"}},
+		TagFamilies: []*databasev1.TagFamilySpec{{Name: "default", Tags: []*databasev1.TagSpec{
+			{Name: "id", Type: databasev1.TagType_TAG_TYPE_STRING}}}},
+	}
+	s, err := lmeasure.BuildSchema(md, nil)
+	if err != nil {
+		return "SCHEMAERR " + err.Error()
+	}
+	cl := &measureCluster{nodes: make([][]*measurev1.InternalDataPoint, nodes)}
+	for i := 0; i < rows; i++ {
+		n := int((uint64(i)*2654435761+uint64(seed))%7919) % nodes
+		cl.nodes[n] = append(cl.nodes[n], &measurev1.InternalDataPoint{DataPoint: &measurev1.DataPoint{
+			Sid: uint64(n + 1), Timestamp: &timestamppb.Timestamp{Seconds: int64(i + 1)}, Version: 1,
+			TagFamilies: []*modelv1.TagFamily{{Name: "default", Tags: []*modelv1.Tag{
+				{Key: "id", Value: &modelv1.TagValue{Value: &modelv1.TagValue_Str{Str: &modelv1.Str{Value: fmt.Sprintf("s%d", n)}}}}}}},
+		}})
+	}
+	req := &measurev1.QueryRequest{Name: "m", Groups: []string{"g"},
+		TagProjection: &modelv1.TagProjection{TagFamilies: []*modelv1.TagProjection_TagFamily{{Name: "default", Tags: []string{"id"}}}},
+		Limit:         uint32(limit), Offset: uint32(offset)}
+	switch order {
+	case "asc":
+		req.OrderBy = &modelv1.QueryOrder{Sort: modelv1.Sort_SORT_ASC}
+	case "desc":
+		req.OrderBy = &modelv1.QueryOrder{Sort: modelv1.Sort_SORT_DESC}
+	case "unspec":
+		req.OrderBy = &modelv1.QueryOrder{}
+	}
+	plan, err := lmeasure.DistributedAnalyze(req, []logical.Schema{s}, 0)
+	if err != nil {
+		return "ANALYZEERR " + err.Error()
+	}
+	mi, err := plan.(executor.MeasureExecutable).Execute(executor.WithDistributedExecutionContext(context.Background(), cl))
+	if err != nil {
+		return "EXECERR " + err.Error()
+	}
+	defer mi.Close()
+	var ids []string
+	for mi.Next() {
+		for _, dp := range mi.Current() {
+			ids = append(ids, fmt.Sprint(dp.GetDataPoint().GetTimestamp().GetSeconds()-1))
+		}
 	}
 	return fmt.Sprintf("pushed=%s got=%s", strings.Join(cl.pushed, ","), ifEmpty(len(ids) == 0, "-")+strings.Join(ids, ","))
 }
